@@ -4,8 +4,9 @@ import LicenseExpr.Model.Stages
 -/
 namespace LE
 
-/-- `' '.join(alias.lower().strip().split())` -/
-def normAlias (c : Cls) (a : Str) : Str := collapse c (c.fold a)
+/-- `' '.join(t for t in get_tokens(alias) if t.strip())`: the alias as the tokenizer reads it — its folded
+    words (parentheses are words of their own), joined by single blanks -/
+def normAlias (c : Cls) (a : Str) : Str := joinStr [SPACE] (wordsOf c a)
 
 /-- the bindings `(alias, keyl)` that one entry writes into `seen_aliases`: its non-empty
     normalised aliases and its own lower-cased key -/
